@@ -1,5 +1,5 @@
 (* vec_driver.ml — model and oracle side of the fixed_vector cluster (C06, C07).
-   Case line:  <variant> <op> <op> ...      variant in C M T U (element type of the C++ side; the model ignores it,
+   Case line:  <variant> <op> <op> ...      variant in C M T U P (P = plain std::int64_t, trivially copyable; element type of the C++ side; the model ignores it,
    except that copy-requiring operations are refused for the move-only variants and fault plans for the
    non-throwing ones, exactly as the C++ driver does).
    op = name,arg,...[!k]   lists are digit strings, "_" = empty list, !k = the k-th element assignment throws.
@@ -27,7 +27,9 @@ let parse_op (w : string) : pop =
   let n s = let v = int_of_string s in if v < 0 || v > 64 then failwith "range" else i2n v in
   let o = match f with
     | ["n"; i; c] -> ONew (n i, n c)
-    | ["nf"; i; c; xs] -> ONewFrom (n i, n c, nats xs)
+    (* fixed_vector(c, iterable): std::vector / std::list / std::array / initializer_list / another fixed_vector *)
+    | [("nf" | "nfl" | "nfa" | "nfi"); i; c; xs] -> ONewFrom (n i, n c, nats xs)
+    | ["nfv"; i; c; j] -> OConstructFrom (n i, n c, n j)
     | ["nl"; i; xs] -> ONewList (n i, nats xs)
     | ["cp"; i; j] -> OCopy (n i, n j)
     | ["mv"; i; j] -> OMove (n i, n j)
@@ -41,9 +43,9 @@ let parse_op (w : string) : pop =
     | ["in"; i; v] -> OInsert (n i, n v)
     | ["im"; i; v] -> OInsertMove (n i, n v)
     | ["pb"; i; v] -> OPushBack (n i, n v)
-    | ["ir"; i; p; xs] -> OInsertRange (n i, n p, nats xs)
+    | [("ir" | "irs"); i; p; xs] -> OInsertRange (n i, n p, nats xs)   (* irs / prs: single-pass input iterators *)
     | ["il"; i; p; xs] -> OInsertList (n i, n p, nats xs)
-    | ["pr"; i; xs] -> OPushBackRange (n i, nats xs)
+    | [("pr" | "prs"); i; xs] -> OPushBackRange (n i, nats xs)
     | ["po"; i] -> OPop (n i)
     | ["er"; i; p] -> OErase (n i, n p)
     | ["de"; i] -> ODestroy (n i)
@@ -73,10 +75,10 @@ let writes o = match o with
   | OPushBack (i, _) | OInsertRange (i, _, _) | OInsertList (i, _, _) | OPushBackRange (i, _) | OPop i | OErase (i, _)
   | ODestroy i | OEmplaceAt (i, _, _) | OEmplaceBackAt (i, _) | OInsertAt (i, _) | OPushBackAt (i, _)
   | OInsertSelfRange (i, _, _, _) | OPushBackSelfRange (i, _, _)
-  | OEraseBefore (i, _) | OEmplaceBefore (i, _, _) | OInsertRangeBefore (i, _, _) -> [n2i i]
+  | OEraseBefore (i, _) | OEmplaceBefore (i, _, _) | OInsertRangeBefore (i, _, _) | OConstructFrom (i, _, _) -> [n2i i]
 let uses o = match o with
   | ONew _ | ONewFrom _ | ONewList _ | OListAssign _ | ODestroy _ -> []
-  | OCopy (_, j) | OMove (_, j) | OAssign (_, j) | OMoveAssign (_, j) -> [n2i j]
+  | OCopy (_, j) | OMove (_, j) | OAssign (_, j) | OMoveAssign (_, j) | OConstructFrom (_, _, j) -> [n2i j]
   | OAt (i, _) | OGet (i, _) | OEmplace (i, _, _) | OEmplaceBack (i, _) | OInsert (i, _) | OInsertMove (i, _)
   | OPushBack (i, _) | OInsertRange (i, _, _) | OInsertList (i, _, _) | OPushBackRange (i, _) | OPop i | OErase (i, _)
   | OEmplaceAt (i, _, _) | OEmplaceBackAt (i, _) | OInsertAt (i, _) | OPushBackAt (i, _)
@@ -86,7 +88,7 @@ let needs_copy o = match o with
   | ONewFrom _ | ONewList _ | OCopy _ | OAssign _ | OListAssign _ | OInsert _ | OPushBack _ | OInsertRange _
   | OInsertList _ | OPushBackRange _
   | OEmplaceAt _ | OEmplaceBackAt _ | OInsertAt _ | OPushBackAt _ | OInsertSelfRange _ | OPushBackSelfRange _
-  | OInsertRangeBefore _ -> true
+  | OInsertRangeBefore _ | OConstructFrom _ -> true
   | _ -> false
 (* positions are turned into iterators begin()+pos by the C++ driver: only 0..capacity is a valid pointer *)
 let position o = match o with
@@ -125,7 +127,7 @@ let render_abs ((c, l) : aobj) : string =
     e (str_of_chars (List.rev_map ch_slot l)) e
     (if s > 0 then str_of_chars [ch_slot (List.hd l); ch_slot (List.nth l (s - 1))] else "-")
 
-let copyable v = (v = "C" || v = "T")
+let copyable v = (v = "C" || v = "T" || v = "P")
 let throwing v = (v = "T" || v = "U")
 
 (* static refusal of a step, identical on the three sides *)
@@ -133,6 +135,7 @@ let refused variant (p : pop) : bool =
   (needs_copy p.o && not (copyable variant)) || (p.plan <> None && not (throwing variant))
   || List.exists (fun i -> i >= npool) (writes p.o @ uses p.o)
   || list_len p.o > 5
+  || (match p.o with ONewFrom (_, _, xs) -> (p.name = "nfi" && List.length xs > 5) || (p.name = "nfa" && List.length xs > 6) | _ -> false)
   || (match p.o with OGet (_, k) -> n2i k > 5 | _ -> false)
   || (match p.o with OEraseBefore (_, d) | OEmplaceBefore (_, d, _) | OInsertRangeBefore (_, d, _) -> n2i d < 1 || n2i d > 4 | _ -> false)
 (* checked after the moved-from rule, so that the capacity of a moved-from object is never consulted *)
@@ -142,7 +145,7 @@ let bad_position (p : pop) (capof : int -> int option) : bool =
 let model (ws : string list) : string =
   match ws with
   | [] -> "BADCASE"
-  | variant :: ops when List.mem variant ["C"; "M"; "T"; "U"] ->
+  | variant :: ops when List.mem variant ["C"; "M"; "T"; "U"; "P"] ->
     (try
       let pool = ref (empty_pool (i2n npool)) in
       let mf = Array.make npool false in
@@ -159,7 +162,7 @@ let model (ws : string list) : string =
           pool := pool';
           (match p.o, r with
            | (OMove (i, j) | OMoveAssign (i, j)), Done -> mf.(n2i i) <- false; mf.(n2i j) <- true
-           | (ONew (i, _) | ONewFrom (i, _, _) | ONewList (i, _) | OCopy (i, _) | ODestroy i), (Done | Raised | Faulted) -> mf.(n2i i) <- false
+           | (ONew (i, _) | ONewFrom (i, _, _) | ONewList (i, _) | OCopy (i, _) | ODestroy i | OConstructFrom (i, _, _)), (Done | Raised | Faulted) -> mf.(n2i i) <- false
            | (OAssign (i, _) | OListAssign (i, _)), Done -> mf.(n2i i) <- false
            | _ -> ());
           Buffer.add_string out (ch_outcome r);
@@ -197,7 +200,7 @@ let parse_state (s : string) : aobj option =
 
 let oracle (ws : string list) (obs : string) : bool =
   match ws with
-  | variant :: ops when List.mem variant ["C"; "M"; "T"; "U"] ->
+  | variant :: ops when List.mem variant ["C"; "M"; "T"; "U"; "P"] ->
     let toks = words obs in
     (* the plug-in's normalize() prefixes a summary word k=...; it carries no information of its own *)
     let toks = match toks with t :: r when String.length t >= 2 && String.sub t 0 2 = "k=" -> r | _ -> toks in
@@ -226,7 +229,7 @@ let oracle (ws : string list) (obs : string) : bool =
             List.for_all (fun (i, s) ->
               let old = aget before (i2n i) in
               match p.o with
-              | ONewFrom _ | ONewList _ | OCopy _ -> s = "X" && (pool := aset !pool (i2n i) None; mf.(i) <- false; true)
+              | ONewFrom _ | ONewList _ | OCopy _ | OConstructFrom _ -> s = "X" && (pool := aset !pool (i2n i) None; mf.(i) <- false; true)
               | OEmplaceBack _ | OInsert _ | OInsertMove _ | OPushBack _ | OAssign _ | OListAssign _
               | OEmplaceBackAt _ | OInsertAt _ | OPushBackAt _ ->
                   (match old with Some a -> if mf.(i) then s = "MF" else s = render_abs a | None -> false)
@@ -256,7 +259,7 @@ let oracle (ws : string list) (obs : string) : bool =
             pool := pool';
             (match p.o, r with
              | (OMove (i, j) | OMoveAssign (i, j)), Done -> mf.(n2i i) <- false; mf.(n2i j) <- true
-             | (ONew (i, _) | ONewFrom (i, _, _) | ONewList (i, _) | OCopy (i, _) | ODestroy i), (Done | Raised) -> mf.(n2i i) <- false
+             | (ONew (i, _) | ONewFrom (i, _, _) | ONewList (i, _) | OCopy (i, _) | ODestroy i | OConstructFrom (i, _, _)), (Done | Raised) -> mf.(n2i i) <- false
              | (OAssign (i, _) | OListAssign (i, _)), Done -> mf.(n2i i) <- false
              | _ -> ());
             let expect = ch_outcome r ^
